@@ -478,6 +478,10 @@ def main(replay=None):
         for i in range(rng.randint(0, 6), len(ts), 7): a, b, c_ = ts[i]; ts[i] = (b, a, c_)
         for fmt in (0, 1):
             cases.append(case_roundtrip(fmt, 0, vs, ts)); labels.append("roundtrip:ico2,flipped")
+        # level-3 sphere (1280 triangles) with every 5th triangle flipped, written unrepaired
+        vs, ts = models.icosphere(3); vs = [tuple(float(c) * 0.0913 for c in v) for v in vs]; ts = list(ts)
+        for i in range(rng.randint(0, 4), len(ts), 5): a, b, c_ = ts[i]; ts[i] = (b, a, c_)
+        cases.append(case_roundtrip(rng.choice([1, 2, 3]), 0, vs, ts)); labels.append("roundtrip:level3,flipped")
         # files that list a point twice (seams), loaded into a fresh Mesh and into a Mesh that already loaded another file
         for n in range(24 if quick else 240):
             v2, t2 = seam_mesh(rng)
